@@ -12,7 +12,7 @@ cases = []
 for i in range(n):
     f = pf.tb_history(rng, blocks[i])
     cases.append(f.s.case("tb%d" % i, {"kind": "tb"}))
-cov, failures = pc.explore({"work": work, "drv": drv}, "TB", cases, ["proxytb-C01", "proxytb-C03", "proxytb-C04", "proxytb-C07", "proxytb-C02"],
+cov, failures = pc.explore({"work": work, "drv": drv}, "TB", cases, ["proxytb-C01", "proxytb-C03", "proxytb-C04", "proxytb-C07", "proxytb-C02", "proxytb-C12"],
                            nontrivial=lambda c, ni: any(l.startswith(b"conn:") for outs, _ in ni for l, _ in outs))
 print(json.dumps(cov))
 impl = lib.run_impl_sharded(drv, cases[:40], work, shards=8)
